@@ -3,20 +3,20 @@ package spv
 // ---------------------------------------------------------------- types and constants
 
 var (
-	rTypeDup      = rule("type.duplicate", "non-aggregate, non-pointer types are not declared twice with identical operands")
-	rTypeOperand  = rule("type.operand", "type declarations have well-formed operands (component types, counts, widths, constant lengths)")
-	rConstType    = rule("const.type", "constant instructions have a result type of the right class and matching constituents")
-	rConstBits    = rule("const.high-bits", "OpConstant of a type narrower than 32 bits has zero / sign extended high-order bits")
-	rBlockTerm    = rule("block.terminator", "every block ends in exactly one termination instruction")
+	rTypeDup        = rule("type.duplicate", "non-aggregate, non-pointer types are not declared twice with identical operands")
+	rTypeOperand    = rule("type.operand", "type declarations have well-formed operands (component types, counts, widths, constant lengths)")
+	rConstType      = rule("const.type", "constant instructions have a result type of the right class and matching constituents")
+	rConstBits      = rule("const.high-bits", "OpConstant of a type narrower than 32 bits has zero / sign extended high-order bits")
+	rBlockTerm      = rule("block.terminator", "every block ends in exactly one termination instruction")
 	rBlockAfterTerm = rule("block.after-terminator", "no instruction follows a terminator without a new OpLabel")
-	rFuncType     = rule("func.type", "OpFunction / OpFunctionParameter agree with the OpTypeFunction")
-	rFuncEntryBr  = rule("block.entry-predecessor", "the entry block of a function is not the target of any branch")
-	rBranchTarget = rule("block.branch-target", "branch targets are OpLabel ids of the same function")
-	rVarPos       = rule("var.function-position", "Function-storage OpVariables are the first instructions of the entry block")
-	rVarClass     = rule("var.storage-class", "OpVariable storage class equals its pointer type's; Function class only inside functions")
-	rVarInit      = rule("var.initializer", "OpVariable initializer is a constant or module-scope variable of the pointee type")
-	rMergePos     = rule("merge.position", "merge instructions immediately precede the block's branch (OpBranchConditional/OpSwitch for selections; OpBranch/OpBranchConditional for loops)")
-	rRecursion    = rule("func.recursion", "the static call graph has no cycles")
+	rFuncType       = rule("func.type", "OpFunction / OpFunctionParameter agree with the OpTypeFunction")
+	rFuncEntryBr    = rule("block.entry-predecessor", "the entry block of a function is not the target of any branch")
+	rBranchTarget   = rule("block.branch-target", "branch targets are OpLabel ids of the same function")
+	rVarPos         = rule("var.function-position", "Function-storage OpVariables are the first instructions of the entry block")
+	rVarClass       = rule("var.storage-class", "OpVariable storage class equals its pointer type's; Function class only inside functions")
+	rVarInit        = rule("var.initializer", "OpVariable initializer is a constant or module-scope variable of the pointee type")
+	rMergePos       = rule("merge.position", "merge instructions immediately precede the block's branch (OpBranchConditional/OpSwitch for selections; OpBranch/OpBranchConditional for loops)")
+	rRecursion      = rule("func.recursion", "the static call graph has no cycles")
 )
 
 func typeKey(in *Inst) string {
